@@ -47,14 +47,14 @@ MUTANTS: dict[str, tuple[list[str], list[tuple[str, str, str]], str]] = {
         ("src/kio/serial/readers.py", "    length = read_int32(buffer)\n    if length == -1:\n        raise UnexpectedNull(\"Unexpectedly read null where bytes was expected\")",
          "    length = read_int32(buffer)\n    assert length != -1, \"Unexpectedly read null where bytes was expected\""),
     ], "AssertionError leaks for a null legacy bytes field"),
-    "zigzag-32-as-64": (["C11"], [
-        ("src/kio/serial/writers.py", "        value=(value << 1) ^ (value >> 31),", "        value=(value << 1) ^ (value >> 32),"),
-    ], "zig-zag shift width off by one (only affects values below -2**31 ... i.e. none in range? affects -2**31 exactly)"),
+    "varlong-zigzag-width": (["C11", "C17"], [
+        ("src/kio/serial/writers.py", "        value=(value << 1) ^ (value >> 63),", "        value=(value << 1) ^ (value >> 31),"),
+    ], "copy-paste slip: signed varlong zig-zag uses the 32-bit shift (wrong only for negative values below -2**31, e.g. large negative timestamp deltas)"),
     "i16-high-bound": (["C12"], [
         ("src/kio/static/primitive.py", "class i16(i32, low=-(2**15), high=2**15 - 1): ...", "class i16(i32, low=-(2**15), high=2**15): ..."),
     ], "i16 accepts 32768"),
     "metadata-kafka-type-edited": (["C13", "C04"], [
-        ("src/kio/schema/list_groups/v4/request.py", 'states_filter: tuple[str, ...] = field(metadata={"kafka_type": "string"}, default=())', 'states_filter: tuple[str, ...] = field(metadata={"kafka_type": "bytes"}, default=())'),
+        ("src/kio/schema/list_groups/v4/request.py", '        metadata={"kafka_type": "string"}, default=()', '        metadata={"kafka_type": "bytes"}, default=()'),
     ], "one field's kafka_type no longer matches its annotation"),
     "flexible-flipped": (["C14", "C04"], [
         ("src/kio/schema/sasl_authenticate/v2/response.py", "    __flexible__: ClassVar[bool] = True", "    __flexible__: ClassVar[bool] = False"),
